@@ -21,6 +21,14 @@ PROPS = {
                             "L: duration/onsets scale by k (induction lemma). Sequence-level wrappers: protocol obligations (operate on the fresh relative view, invalidate the absolute one). "
                             "B: cutoff (depends on the pairing function) and the wrappers end-to-end by enumeration with an independent oracle.",
                 assumptions=[INTS], note="cutoff is bounded only (pairing contract not proved)"),
+    "C04": dict(level="other", bounded=True, technique="contract-based deductive verification of the Sequence representation invariant (established by the constructor, preserved by every public method, case split over the three freshness states) + bounded random histories for the view-equality clause",
+                explanation="U: protocol part of the representation invariant for every public Sequence method from every freshness state: never both views stale (never unreadable), a fresh view is well-formed, "
+                            "every mutator runs on a freshly obtained view and leaves the other view stale (so its effect is what the other view is recomputed from), overwrite makes the overwritten view the fresh one, "
+                            "the two stored views never share message objects; conversions return fresh well-formed sequences (to_relative_sequence / to_absolute_sequence with loop invariants, list.sort by its assumed contract). "
+                            "B: the content clause (both views describe the same timed events and duration, conversions lose nothing) by seeded random operation histories compared through an independent timeline oracle.",
+                assumptions=[INTS, SORT, "A: wf-preservation of quantise / quantise_note_lengths / cutoff / merge / normalise_relative / concatenate at the wrapper level (validated by the bounded tier)",
+                             "generators messages_abs/messages_rel are covered by the bounded tier only"],
+                note="same_view (content equality of the two views) is bounded, not proved"),
 }
 
 NOT_APPLICABLE = {}
